@@ -173,6 +173,71 @@ pub fn run_c07(ctx: &Ctx) -> (Report, String) {
                 rep.count("context_images_compared");
             }
         }
+        // mostly-neutral pictures with one to three deviating samples near the ends of the planes
+        // (a whole-picture shortcut must look at every sample before it is taken)
+        for w in 1..=40usize {
+            for h in 1..=40usize {
+                let before = rep.get("images_compared");
+                c08_image(&k, &mut crng, w, h, 6, &mut rep);
+                if rep.get("images_compared") > before {
+                    rep.count("sparse_deviation_images_compared");
+                }
+            }
+        }
+        // the colour of a pixel depends on its own chroma sample only, whatever the neighbouring sample
+        // of the same 4-pixel group holds: groups (left, right) with special values next to every value,
+        // the two chroma planes equal / crossed / independent
+        let specials = [0u8, 16, 127, 128, 129, 240, 255];
+        let mut groups: Vec<[u8; 4]> = vec![]; // cbL, cbR, crL, crR
+        for sp in specials {
+            for x in 0..=255u8 {
+                groups.extend([[sp, x, sp, x], [x, sp, x, sp], [sp, x, sp, sp], [sp, sp, sp, x], [sp, x, x, sp], [x, x, sp, sp], [sp, sp, x, x], [sp, x, sp, x ^ 1]]);
+            }
+        }
+        for chunk in groups.chunks(128) {
+            for width in [512usize, 515] {
+                // 2 rows; chroma sample pairs (2g, 2g+1) belong to the same 4-pixel group of each row
+                let cw = (width + 1) / 2;
+                let mut cbp = vec![128u8; cw];
+                let mut crp = vec![128u8; cw];
+                for (g, q) in chunk.iter().enumerate() {
+                    cbp[2 * g] = q[0];
+                    cbp[2 * g + 1] = q[1];
+                    crp[2 * g] = q[2];
+                    crp[2 * g + 1] = q[3];
+                }
+                let mut yp = vec![0u8; 2 * width];
+                crng.fill(&mut yp);
+                for (i, v) in yp.iter_mut().enumerate() {
+                    if i % 3 == 0 {
+                        *v = [0u8, 16, 128, 235, 255][(i / 3) % 5];
+                    }
+                }
+                let out = match catch(|| yuv420_to_rgba(&yp, &cbp, &crp, width)) {
+                    Ok(o) => o,
+                    Err(p) => {
+                        rep.violation(format!("panic@{}", p.loc), format!("neighbour-context picture panicked: {}", p.msg), J::obj().set("property", "C07").set("kind", "panic"));
+                        break;
+                    }
+                };
+                rep.evaluations += 1;
+                if out.len() != 8 * width {
+                    rep.violation("length", format!("{}x2 picture gave {} bytes", width, out.len()), J::obj().set("property", "C07").set("kind", "length"));
+                    break;
+                }
+                let mut ok = true;
+                for (i, px) in out.chunks(4).enumerate() {
+                    let x = i % width;
+                    if !check_px(&k, yp[i], cbp[x / 2], crp[x / 2], px, "neighbour-context", &mut rep) {
+                        ok = false;
+                        break;
+                    }
+                }
+                if ok {
+                    rep.add("neighbour_context_groups", chunk.len() as u64);
+                }
+            }
+        }
         // C08's helper files violations under C08-style signatures with property tag C08 in the replay; fine for a witness
     }
     rep.exhaustive = Some(step == 1 && rep.distinct_enumerated == 1 << 24 && rep.violations.is_empty());
@@ -180,6 +245,8 @@ pub fn run_c07(ctx: &Ctx) -> (Report, String) {
     rep.sample(4, || J::obj().set("picture", "7x1: pixels 4..6 go through the remainder path with chroma samples 2,3").set("model_coefficients", format!("{} {} {} {} {}", k.gray, k.cr2r, k.cr2g, k.cb2g, k.cb2b)));
     if ctx.is_main() && step == 1 {
         rep.require("context_images_compared", 12);
+        rep.require("sparse_deviation_images_compared", 1600);
+        rep.require("neighbour_context_groups", 2 * 7 * 256 * 8);
         rep.require("remainder_path_triples", 1 << 24);
     }
     (rep, rule_c07())
